@@ -674,7 +674,8 @@ def replay_concrete(prog, cj, model, arrays, pos_names):
                             # representable tie (round/floor/compare) is constant on one side and stays in
                             drng = np.random.default_rng(11)
                             patterns = [None] + [[drng.integers(0, 2, size=np.asarray(a).shape) * 2 - 1 for a in arrays] for _ in range(3)]
-                            for pat in patterns:
+                            for pat_i, pat in enumerate(patterns):
+                                int_mult = pat_i % 3 + 1  # integers beyond the mantissa: 1, 2, 3 float steps (chaotic f at that scale)
                                 deltas = []
                                 for sgn in (+1, -1):
                                     pert = []
@@ -685,14 +686,14 @@ def replay_concrete(prog, cj, model, arrays, pos_names):
                                             # an integer beyond the float mantissa is rounded when JAX converts it:
                                             # that rounding is part of JAX's own evaluation error as well
                                             ft = np.float64 if strict64 else np.float32
-                                            step = np.spacing(np.abs(a).astype(ft)).astype(np.float64)
+                                            step = np.spacing(np.abs(a.astype(np.int64)).astype(ft)).astype(np.float64)
                                             step = np.where(step > 1, step, 0).astype(np.int64)
                                             if not step.any():
                                                 pert.append(a)
                                                 continue
                                             d = np.full(a.shape, sgn, dtype=np.int64) if pat is None else sgn * pat[ai]
                                             ii = np.iinfo(a.dtype)
-                                            moved = a.astype(np.int64) + d * step
+                                            moved = a.astype(np.int64) + d * step * int_mult
                                             if np.any((moved < ii.min) | (moved > ii.max)):
                                                 clipped_side = True  # edge of the integer range: only the other side counts
                                             pert.append(np.clip(moved, ii.min, ii.max).astype(a.dtype))
